@@ -9,6 +9,7 @@ import DTML.Scan
 import DTML.Parse
 import DTML.Props.C01
 import DTML.Lemmas.Params
+import DTML.Lemmas.ParseTag
 set_option linter.unusedVariables false
 namespace DTML.Props.C06
 open DTML.Scan DTML.Parse
@@ -814,5 +815,45 @@ example : (parseParamsGen Gen.varParams 30 "x fmt=\"a b\" upper".toList []).toOp
   decide +kernel
 
 end GenParams
+/-! #### the tag grammar errors on the translated `parseTag` (GenParseTag.lean, regenerated on every run)
+
+`stepTok` reads a tag through `tagRole`; by `Lemmas.ParseTag.parseTagGen_eq` that is `String._parseTag` around
+`HTML.parseTag` / `String.parseTag` of the current source, so the ParseErrors of the source are the model's. -/
+
+/-- the role the builder acts on is the one the translated `_parseTag` / `parseTag` of the syntax's class returns -/
+theorem gen_parseTag_is_tagRole (syn : Syntax) (tk : Tok) (ctx : Option (Cmd × Text)) :
+    DTML.Lemmas.ParseTag.parseTagGen syn tk (ctx.map (·.1)) ((ctx.map (·.2)).getD []) = tagRole syn tk ctx :=
+  DTML.Lemmas.ParseTag.parseTagGen_eq syn tk ctx
+
+/-- 'Unexpected tag': a start tag whose name is not in `self.commands` (and is no continuation of the open block) is
+refused by the translated method of either class with that text -/
+theorem gen_parseTag_unknown_tag (tk : Tok) (ctx : Option (Cmd × Text))
+    (hend : tk.isEnd = false)
+    (hk : Cmd.ofName (String.ofList tk.name) = none)
+    (hc : ∀ p, ctx = some p → (p.1.continuations.getD []).contains (String.ofList tk.name) = false) :
+    DTML.GenParseTag.parseTagHtmlGen tk (ctx.map (·.1)) ((ctx.map (·.2)).getD []) = .error ⟨"Unexpected tag"⟩ := by
+  rw [DTML.Lemmas.ParseTag.html_eq]
+  unfold tagRole
+  cases ctx with
+  | none => simp [hend, hk]
+  | some p =>
+    have := hc p rfl
+    obtain ⟨c, sa⟩ := p
+    have hm : ¬ String.ofList tk.name ∈ c.continuations.getD [] := by simpa using this
+    simp [hend, hk, hm]
+
+/-- 'unexpected end tag': an end tag with no block open, or naming another command than the open block's -/
+theorem gen_parseTag_unexpected_end (tk : Tok) (ctx : Option (Cmd × Text))
+    (hend : tk.isEnd = true) (hc : ∀ p, ctx = some p → String.ofList tk.name ≠ p.1.name) :
+    DTML.GenParseTag.parseTagHtmlGen tk (ctx.map (·.1)) ((ctx.map (·.2)).getD []) = .error ⟨"unexpected end tag"⟩ := by
+  rw [DTML.Lemmas.ParseTag.html_eq]
+  unfold tagRole
+  cases ctx with
+  | none => simp [hend]
+  | some p =>
+    have := hc p rfl
+    obtain ⟨c, sa⟩ := p
+    simp only [] at this
+    simp [hend, this]
 
 end DTML.Props.C06
